@@ -283,7 +283,15 @@ def run_cases(cfg, seed, ncases, tier, tag, log, only=None, release=False):
 
     fails, classes, errors = [], {}, []
     with concurrent.futures.ThreadPoolExecutor(16) as ex:
-        for f, (rc, o) in ex.map(one, shards):
+        results = list(ex.map(one, shards))
+    # a shard that timed out (loaded machine) is evaluated again, alone, with a much longer limit:
+    # a slow machine must not turn into an alarm
+    for i, (f, (rc, o)) in enumerate(results):
+        if rc == 124:
+            results[i] = (f, sh(["coqc", "-Q", COQ, "Coupe", "-noglob", f], cwd=out_dir,
+                                timeout=4 * cfg.get("coqc_timeout", 900)))
+    if True:
+        for f, (rc, o) in results:
             k = int(re.findall(r"\d+", f)[0])
             rep = parse_report(o) if rc == 0 else None
             if rep is None:
